@@ -63,7 +63,7 @@ static bool same (svalue_t *a, svalue_t *b, int depth) {
     // the printed precision" is what the property grants), so the number of pairs may shrink
     for (int j = 0; j <= m->table_size; j++)
       for (mapping_node_t *e = m->table[j]; e; e = e->next)
-        if (e->values[0].type == T_REAL) return true;
+        if (e->values[0].type == T_REAL || (e->values[0].type == T_STRING && strchr (e->values[0].u.string, '\r'))) return true;   // (a key with a CR: KF-C16-1 can merge it with another key)
     if (m->count != n->count) return false;
     for (int j = 0; j <= m->table_size; j++)
       for (mapping_node_t *e = m->table[j]; e; e = e->next) {
